@@ -132,15 +132,13 @@ func (c c09Case) run(r c09Run) scanOut {
 	cfg.MaxFileSize = r.MaxFileSize
 	mfs := memfs.New(c.Tree, memfs.Options{ReadDirFile: r.ReadDirFile, Faults: r.Faults})
 	// "the scan still terminates": a scan of a dozen in-memory nodes takes milliseconds; one
-	// that has not returned after 20 s is reported as non-terminating.
+	// that has not returned after five minutes is reported as non-terminating (a short limit is not a correctness signal on a busy machine).
 	done := make(chan scanOut, 1)
 	go func() { done <- runScan(virtualRoot(mfs), cfg, c.Exts, nil) }()
-	select {
-	case out := <-done:
+	if out, ok := ev.Await(done, 20*time.Second, ev.HangLimit); ok {
 		return out
-	case <-time.After(20 * time.Second):
-		return scanOut{Panic: fmt.Sprintf("the scan did not return within 20 s (%d file-system operations so far)", len(mfs.Log()))}
 	}
+	return scanOut{Panic: fmt.Sprintf("the scan did not return within %v (%d file-system operations so far)", ev.HangLimit, len(mfs.Log()))}
 }
 
 // decide checks one faulted run against the fault-free run of the same options.
